@@ -93,6 +93,8 @@ func handle(p []string) (res string) {
 		return opMarshal(p[1:])
 	case "unmarshal":
 		return opUnmarshal(p[1:])
+	case "autogen":
+		return opAutogen(p[1:])
 	case "roundtrip":
 		return opRoundtrip(p[1:])
 	case "remarshal":
